@@ -242,7 +242,7 @@ fn perform_exp_for_small_power(span: &mut SpanBuilder, pow: u64) {
 /// Appends a sequence of operations to calculate the base 2 integer logarithm of the stack top
 /// element, using non-deterministic technique (i.e. it takes help of advice provider).
 ///
-/// This operation takes 44 VM cycles.
+/// This operation takes 46 VM cycles.
 ///
 /// # Errors
 /// Returns an error if the logarithm argument (top stack element) equals ZERO.
@@ -261,17 +261,26 @@ pub fn ilog2(span: &mut SpanBuilder) -> Result<Option<CodeBlock>, AssemblyError>
         MovUp2, U32split, MovUp2, U32split,
         // => [pow2_high, pow2_low, n_high, n_low, ilog2, ...]
 
-        // only one of the two halves in pow2 has a bit set, drop the other (9 cycles)
+        // only one of the two halves in pow2 has a bit set, drop the other (6 cycles)
         Dup1, Eqz, Dup0, MovDn3,
-        // => [drop_low, pow2_high, pow2_low, drop_low, n_high, n_low, ilog2, ...]
-        CSwap, Drop, MovDn3, CSwap, Drop,
+        // => [in_high, pow2_high, pow2_low, in_high, n_high, n_low, ilog2, ...]
+        CSwap, Drop,
+        // => [pow2_half, in_high, n_high, n_low, ilog2, ...]
+
+        // pick the matching half of n; the other half must be zero when it is the high one,
+        // i.e., when pow2 fits into the low half (9 cycles)
+        Dup1, Not, MovDn4, MovDn3, CSwap,
+        // => [n_other_half, n_half, pow2_half, in_low, ilog2, ...]
+        MovUp3, Mul, Eqz, Assert(0),
         // => [n_half, pow2_half, ilog2, ...]
 
-        // set all bits to 1 lower than pow2_half (00010000 -> 00011111)
-        Swap, Pad, Incr, Incr, Mul, Pad, Incr, Neg, Add, 
-        // => [pow2_half * 2 - 1, n_half, ilog2, ...]
-        Dup1, U32and, 
-        // => [m, n_half, ilog2, ...] if ilog2 calculation was correct, m should be equal to n_half
+        // the bit of pow2_half must be the most significant bit set in n_half: with all bits
+        // from that position upwards set in the mask (00010000 -> 11110000), only that bit may
+        // survive (9 cycles)
+        Swap, Dup0, Neg, Push(Felt::new(1 << 32)), Add,
+        // => [2^32 - pow2_half, pow2_half, n_half, ilog2, ...]
+        MovUp2, U32and,
+        // => [m, pow2_half, ilog2, ...] if ilog2 calculation was correct, m should be equal to pow2_half
         Eq, Assert(0),
         // => [ilog2, ...]
     ];
